@@ -1486,6 +1486,12 @@ class Evaluator:
                 if other.op in ("new", "tuple", "list", "dict", "lam", "lambda", "closure", "binop", "fstr", "comp"):
                     return op == "is not"
                 return None
+            if op in ("in", "not in") and l.op == "const" and _is_literal(r) and r.op in ("list", "tuple", "set", "dict"):
+                try:
+                    res = const_value(l) in literal_value(r)
+                    return res if op == "in" else (not res)
+                except Exception:
+                    return None
             if l.op == "const" and r.op == "const":
                 lv, rv = const_value(l), const_value(r)
                 try:
